@@ -264,7 +264,9 @@ class RankRunner:
                 # load an older checkpoint into the SAME (live) preconditioner and put the weights back
                 with warnings.catch_warnings():
                     warnings.simplefilter('ignore')
-                    self.pre.load_state_dict(pickle.loads(pickle.dumps(self._snap_copy)), compute_inverses=op.get('compute_inverses', True))
+                    # 'live': the very dict returned by state_dict() (it may alias live tensors); otherwise a deep copy taken at that time
+                    state = self._snap_live if op.get('live') else pickle.loads(pickle.dumps(self._snap_copy))
+                    self.pre.load_state_dict(state, compute_inverses=op.get('compute_inverses', True))
                 with torch.no_grad():
                     for p, q in zip(self.model.parameters(), self._snap_params):
                         p.copy_(q)
